@@ -425,11 +425,18 @@ def check_one_inf(out, A, ex):
     # must not leave its argument changed for the next one
     Aq, AHq = Q(A), Q(AH)
     hA, hAH = ahash(Aq), ahash(AHq)
+    # the same matrix in other memory layouts (Fortran order as LAPACK wrappers return it, a transposed view as A.T.T
+    # or the transpose of a stored A^T gives it): a norm is a function of the values
+    AF, AV = np.asfortranarray(Aq), np.ascontiguousarray(Aq.T).T
     calls = {
         "one": {"matrix_norm(ord=1)": lambda: u.matrix_norm(Aq, 1),
+                "matrix_norm(F-ordered,ord=1)": lambda: u.matrix_norm(AF, 1),
+                "induced_matrix_norm_1(transposed view)": lambda: u.induced_matrix_norm_1(AV),
                 "induced_matrix_norm_1": lambda: u.induced_matrix_norm_1(Aq),
                 "matrix_norm(A^H,ord=np.inf)": lambda: u.matrix_norm(AHq, np.inf)},
         "inf": {"matrix_norm(ord=np.inf)": lambda: u.matrix_norm(Aq, np.inf),
+                "matrix_norm(transposed view,ord=np.inf)": lambda: u.matrix_norm(AV, np.inf),
+                "induced_matrix_norm_inf(F-ordered)": lambda: u.induced_matrix_norm_inf(AF),
                 "matrix_norm(ord='inf')": lambda: u.matrix_norm(Aq, "inf"),
                 "induced_matrix_norm_inf": lambda: u.induced_matrix_norm_inf(Aq),
                 "matrix_norm(A^H,ord=1)": lambda: u.matrix_norm(AHq, 1)},
